@@ -2624,6 +2624,9 @@ func (p *Parser) caseItems(stop string) (items []*CaseItem) {
 			}
 		}
 		old := p.preNested(switchCase)
+		// A case item is not a nested input: a here-document which is still
+		// pending starts after the next newline, wherever that one is.
+		p.buriedHdocs = old.buriedHdocs
 		p.next()
 		ci.Stmts, ci.Last = p.stmtList(stop)
 		p.postNested(old)
